@@ -4,7 +4,11 @@
 //! called, and results are projected:
 //!   * labels / integer targets stay integers (`a`, `b`; real targets are a/U, b/U, fed to
 //!     the library multiplied by 2^e -- exact -- and the result is divided by the matching
-//!     power of two before it is quantised);
+//!     power of two before it is quantised; the OFFSET family additionally adds a large common
+//!     integer `off` to both vectors -- a/U + off, b/U + off, exactly representable, checked --
+//!     and records the small integers and the offset separately: MSE, MAE and R^2 depend on
+//!     differences and deviations from the mean only, so the specification evaluates its
+//!     exact rationals on the small integers);
 //!   * real-valued AUC scores are recorded as dense ranks (order- and tie-preserving);
 //!   * a result v is recorded as round(v * 2^S); S <= 16 is chosen from the input magnitudes
 //!     only, so that the integer arithmetic of the specification stays inside 32 bits;
@@ -66,11 +70,23 @@ fn metric_event<T: RealNumber>(
     b2: i64,
     u: i64,
     e: i32,
+    off: i64,
     expect: Option<(i64, i64)>,
 ) -> Option<Value> {
-    let s = pick_s(num_bound(name, a, b, b1, b2))?;
+    let mut s = pick_s(num_bound(name, a, b, b1, b2))?;
+    if off != 0 && ty == "f32" {
+        s = s.min(10); // single precision next to a large offset: coarse comparison only
+    }
     let sc = 2f64.powi(e);
-    let conv = |v: &i64| T::from_f64(*v as f64 / u as f64 * sc).unwrap();
+    let exact = |v: &i64| (*v as f64 / u as f64 + off as f64) * sc;
+    // the shifted inputs must be exactly representable in T, else the case is skipped
+    let fed_b: &[i64] = if scores.is_some() { &[] } else { b };
+    if a.iter().chain(fed_b.iter())
+        .any(|v| T::from_f64(exact(v)).and_then(|t| t.to_f64()) != Some(exact(v)))
+    {
+        return None;
+    }
+    let conv = |v: &i64| T::from_f64(exact(v)).unwrap();
     let ya: Vec<T> = a.iter().map(conv).collect();
     let yb: Vec<T> = match scores {
         Some(sv) => sv.iter().map(|&v| T::from_f64(v).unwrap()).collect(),
@@ -105,7 +121,7 @@ fn metric_event<T: RealNumber>(
         Some((n, d)) => (true, n, d),
         None => (false, 0, 1),
     };
-    Some(json!({"run": run, "ev": "Metric", "name": name, "ty": ty, "S": s, "U": u, "e": e,
+    Some(json!({"run": run, "ev": "Metric", "name": name, "ty": ty, "S": s, "U": u, "e": e, "off": off,
                 "a": a, "b": b, "b1": b1, "b2": b2, "status": status, "fin": q.ok(), "out": out,
                 "hasExpect": hx, "xnum": xn, "xden": xd}))
 }
@@ -122,12 +138,13 @@ fn metric(
     b2: i64,
     u: i64,
     e: i32,
+    off: i64,
     expect: Option<(i64, i64)>,
 ) -> Option<Value> {
     if ty == 0 {
-        metric_event::<f64>(run, name, "f64", a, b, scores, b1, b2, u, e, expect)
+        metric_event::<f64>(run, name, "f64", a, b, scores, b1, b2, u, e, off, expect)
     } else {
-        metric_event::<f32>(run, name, "f32", a, b, scores, b1, b2, u, e, expect)
+        metric_event::<f32>(run, name, "f32", a, b, scores, b1, b2, u, e, off, expect)
     }
 }
 
@@ -307,7 +324,7 @@ fn main() {
                 let ex = Some((c["num"].as_i64().unwrap(), c["den"].as_i64().unwrap()));
                 for ty in 0..2 {
                     run += 1;
-                    emit!(metric(ty, run, "auc", &a, &b, Some(&sc), 1, 1, 1, 0, ex));
+                    emit!(metric(ty, run, "auc", &a, &b, Some(&sc), 1, 1, 1, 0, 0, ex));
                 }
             }
         }
@@ -328,7 +345,7 @@ fn main() {
                         let scores = if name == "auc" { Some(&sc[..]) } else { None };
                         emit!(metric(ty, run, &name, &a, &b, scores, c["b1"].as_i64().unwrap(),
                                      c["b2"].as_i64().unwrap(), c["U"].as_i64().unwrap(),
-                                     c["e"].as_i64().unwrap() as i32, None));
+                                     c["e"].as_i64().unwrap() as i32, c["off"].as_i64().unwrap_or(0), None));
                     }
                     "HCV" => out.emit(hcv(ty, run, &as_iv(&c["a"]), &as_iv(&c["b"]), &as_iv(&c["a2"]), &as_iv(&c["b2"]))),
                     "ArgSort" => {
@@ -356,7 +373,7 @@ fn main() {
                             let betas: &[(i64, i64)] = if *name == "fbeta" { &BETAS } else { &BETAS[1..2] };
                             for &(b1, b2) in betas {
                                 run += 1;
-                                emit!(metric((run % 2) as usize, run, name, a, b, None, b1, b2, 1, 0, None));
+                                emit!(metric((run % 2) as usize, run, name, a, b, None, b1, b2, 1, 0, 0, None));
                             }
                         }
                     }
@@ -375,7 +392,7 @@ fn main() {
                         }
                         for name in ["mse", "mae", "r2"].iter() {
                             run += 1;
-                            emit!(metric((run % 2) as usize, run, name, a, b, None, 1, 1, 1, 0, None));
+                            emit!(metric((run % 2) as usize, run, name, a, b, None, 1, 1, 1, 0, 0, None));
                         }
                     }
                 }
@@ -408,7 +425,7 @@ fn main() {
                 for name in CLASSIF.iter() {
                     let (b1, b2) = if *name == "fbeta" { BETAS[r.gen_range(0..3)] } else { (1, 1) };
                     run += 1;
-                    emit!(metric(i % 2, run, name, &a, &b, None, b1, b2, 1, 0, None));
+                    emit!(metric(i % 2, run, name, &a, &b, None, b1, b2, 1, 0, 0, None));
                 }
                 // accuracy is defined for any labels
                 if i % 4 == 0 {
@@ -416,7 +433,7 @@ fn main() {
                     let a: Vec<i64> = (0..n).map(|_| r.gen_range(-k..=k)).collect();
                     let b: Vec<i64> = a.iter().map(|&v| if r.gen_bool(0.6) { v } else { r.gen_range(-k..=k) }).collect();
                     run += 1;
-                    emit!(metric(i % 2, run, "accuracy", &a, &b, None, 1, 1, 1, 0, None));
+                    emit!(metric(i % 2, run, "accuracy", &a, &b, None, 1, 1, 1, 0, 0, None));
                 }
             }
             // AUC: both classes present; scores without ties, heavily tied, constant
@@ -441,7 +458,7 @@ fn main() {
                     .collect();
                 let rk = dense_ranks(&sc);
                 run += 1;
-                emit!(metric(ty, run, "auc", &a, &rk, Some(&sc), 1, 1, 1, 0, None));
+                emit!(metric(ty, run, "auc", &a, &rk, Some(&sc), 1, 1, 1, 0, 0, None));
             }
             // regression: targets a/U, b/U scaled by 2^e
             for i in 0..cnt {
@@ -462,7 +479,36 @@ fn main() {
                 let e = if i % 2 == 0 { 0 } else if ty == 0 { r.gen_range(-60..=60) } else { r.gen_range(-25..=25) };
                 for name in ["mse", "mae", "r2"].iter() {
                     run += 1;
-                    emit!(metric(ty, run, name, &a, &b, None, 1, 1, u, e, None));
+                    emit!(metric(ty, run, name, &a, &b, None, 1, 1, u, e, 0, None));
+                }
+            }
+            // OFFSET family ("real targets of any scale"): small-integer residual structure on
+            // top of a large, exactly representable common offset (timestamps, prices in cents,
+            // readings around a baseline).  Recorded: the small integers and the offset.
+            let noff = if th { 1500 } else { 250 };
+            for i in 0..noff {
+                let ty = i % 2;
+                let n = if ty == 0 { r.gen_range(2..=60usize) } else { r.gen_range(2..=16usize) };
+                let u = [1i64, 1, 2, 4][r.gen_range(0..4)];
+                let m = r.gen_range(1..=25i64) * u;          // spread of at most +-25 real units
+                let off: i64 = if ty == 0 {
+                    [1i64 << 30, -(1i64 << 30), 1_000_000_000, -1_000_000_000, 123_456_789, 1 << 24][r.gen_range(0..6)]
+                } else {
+                    [1i64 << 15, 50_000, -40_000, 1 << 14][r.gen_range(0..4)]
+                };
+                let a: Vec<i64> = match i % 4 {
+                    0 => (0..n as i64).map(|k| (k * u).min(m)).collect(),      // ramp
+                    _ => (0..n).map(|_| r.gen_range(-m..=m)).collect(),
+                };
+                let b: Vec<i64> = match i % 3 {
+                    0 => a.iter().enumerate().map(|(k, &v)| v + if k % 2 == 0 { 1 } else { -1 }).collect(),
+                    1 => a.iter().map(|&v| v + r.gen_range(-2..=2)).collect(),
+                    _ => (0..n).map(|_| r.gen_range(-m..=m)).collect(),
+                };
+                let e = if i % 5 == 0 && ty == 0 { r.gen_range(-40..=40) } else { 0 };
+                for name in ["mse", "mae", "r2"].iter() {
+                    run += 1;
+                    emit!(metric(ty, run, name, &a, &b, None, 1, 1, u, e, off, None));
                 }
             }
             // length mismatch: the pairwise metrics must reject
@@ -478,7 +524,7 @@ fn main() {
                 }
                 for name in ["accuracy", "precision", "recall", "fbeta", "mse", "mae", "r2"].iter() {
                     run += 1;
-                    emit!(metric(i % 2, run, name, &a, &b, None, 1, 1, 1, 0, None));
+                    emit!(metric(i % 2, run, name, &a, &b, None, 1, 1, 1, 0, 0, None));
                 }
             }
             // clusterings: 1..8 classes / clusters, arbitrary integer labels
